@@ -322,3 +322,56 @@ func zzSeqOnWire13Unprotected() {
 		zzsymCover("plain13_epoch2")
 	}
 }
+
+// DTLS 1.3 protected HANDSHAKE records (processProtectedHandshakePacketTracked: the handshake flights of epoch 2,
+// NewSessionTicket / KeyUpdate of the application epochs), first transmission and retransmission: write
+// generations for epochs 2 and 3 are both installed (the client installs its epoch-3 keys right after the first
+// send of its final flight, whose retransmissions still belong to epoch 2), per-epoch counters are arbitrary. A
+// handshake message of 2 bytes sent in packet epoch e (2 or 3) as one or two fragments, then sent AGAIN: every record
+// is sealed by the generation of epoch e with the number just allocated from EPOCH e's counter, the tracked record
+// number is that pair, consecutive records (also across the two transmissions) get consecutive numbers, and the
+// other epoch's counter does not move. So a retransmitted flight never re-uses a number of its epoch.
+//
+//symgo:entry covers=hs13_epoch2_while_epoch3_is_current,hs13_current_epoch
+func zzSeqOnWire13Handshake() {
+	c := zzConn12(&zzFakeSuite{})
+	st := dtlsstate.Activate13(c.state)
+	c.state = st
+	st.LocalVersion = protocol.Version1_3
+	var seqs []uint64
+	var epochs, hdr []uint16
+	st.TrafficKeys.Install(&dtlsstate.TrafficGeneration{Epoch: 2, Protection: &zzSeal9{epoch: 2, seqs: &seqs, epochs: &epochs, hdrSeq: &hdr}}, nil)
+	st.TrafficKeys.Install(&dtlsstate.TrafficGeneration{Epoch: 3, Generation: 1, Protection: &zzSeal9{epoch: 3, seqs: &seqs, epochs: &epochs, hdrSeq: &hdr}}, nil)
+	st.SetLocalEpoch(3)
+	st.LocalSequenceNumber = []uint64{0, 0, zzsymU64("ctr2"), zzsymU64("ctr3")}
+	e := uint16(2 + zzsymChoice("packet_epoch", 2))
+	pre, other := st.LocalSequenceNumber[e], st.LocalSequenceNumber[5-e]
+	zzsymAssume(pre <= recordlayer.MaxSequenceNumber-4)
+	c.maximumTransmissionUnit = 1 + zzsymChoice("mtu", 2) // 1: two fragments, 2: one
+	n := 0
+	for round := 0; round < 2; round++ {
+		hs := &handshake.Handshake{Message: &handshake.MessageFinished{VerifyData: zzsymBytes("verify", 2)}}
+		pkt := &dtlsflight.Packet{
+			Record:         &recordlayer.RecordLayer{Header: recordlayer.Header{Epoch: e, Version: protocol.Version1_2}, Content: hs},
+			ShouldEncrypt:  true,
+			ShouldTrackACK: true,
+		}
+		recs, err := c.processProtectedHandshakePacketTracked(pkt, hs)
+		zzsymAssert(err == nil && len(recs) >= 1, "handshake13_send_ok")
+		for _, r := range recs {
+			zzsymAssert(n < len(seqs), "every_record_sealed")
+			zzsymAssert(epochs[n] == e, "sealed_by_the_generation_of_the_packet_epoch")
+			zzsymAssert(seqs[n] == pre+uint64(n), "handshake13_seq_allocated_from_packet_epochs_counter")
+			zzsymAssert(r.tracked != nil && r.tracked.Number.Epoch == uint64(e) && r.tracked.Number.SequenceNumber == pre+uint64(n),
+				"tracked_record_number_is_the_pair_on_the_wire")
+			n++
+		}
+	}
+	zzsymAssert(st.LocalSequenceNumber[e] == pre+uint64(n), "packet_epochs_counter_advanced_per_record")
+	zzsymAssert(st.LocalSequenceNumber[5-e] == other, "other_epochs_counter_untouched")
+	if e == 2 {
+		zzsymCover("hs13_epoch2_while_epoch3_is_current")
+	} else {
+		zzsymCover("hs13_current_epoch")
+	}
+}
